@@ -352,3 +352,54 @@ class ArrAssertEq(_Arr):
 def small(c, *ts):
     q = c.p // 4
     return And(*[And(t > -q, t < q) for t in ts])
+
+
+@register
+class ArraySetMixedKinds(_Arr):
+    """arr[i] = v for a secret i where the elements and the written value are of DIFFERENT secret kinds (boolean flags,
+    integers, fixed-point numbers): still exactly element i is replaced, and every other element keeps the NUMBER it
+    represented (an element that had to change type to share a list with the new value is converted, not rescaled
+    twice or left unscaled)."""
+    name = "pysnark.array:Array.__setitem__#mixed_kinds"
+    eprops = ()
+    sprops = ()
+    tprops = ()
+    skip_facets = "TN"
+
+    def configs(self, tier):
+        return [dict(mode="plain", n=2, elems=e, value=v, res=3) for e, v in (("bool", "fxp"), ("int", "fxp"), ("bool", "int"), ("fxp", "int"))]
+
+    def setup(self, c, cfg):
+        apply_mode(c, cfg["mode"], bitlength=6)
+        c.w.modules["pysnark.fixedpoint"].resolution = cfg["res"]
+        mk = {"bool": lambda nm: c.operand_bool(nm), "int": lambda nm: c.operand(nm), "fxp": lambda nm: c.mk_fxp(c.operand(nm))}
+        self._old = [mk[cfg["elems"]]("e%d" % j) for j in range(cfg["n"])]
+        A = _arr_mod(c).Array(list(self._old))
+        return type(A).__setitem__, (A, c.operand("i"), mk[cfg["value"]]("v")), {}
+
+    def pre(self, c, A, i, v):
+        return [canon(c, c.v(i)), (1 << (c.bitlength + 1)) < c.p]
+
+    raises_unspecified = True
+
+    def post(self, c, r, A, i, v):
+        R = 1 << c.cfg["res"]
+        n = len(self._old)
+        iv = c.v(i)
+        inb = And(iv >= 0, iv < n)
+        d = {"V.length": len(A.arr) == n}
+        if not d["V.length"]:
+            return d
+
+        def number(o):
+            """(numerator, denominator) of the number a secret object represents"""
+            return (c.v(o), R) if isinstance(o, c.LinCombFxp) else (c.v(o), 1)
+        for j in range(n):
+            new, old = A.arr[j], self._old[j]
+            nn, nd = number(new)
+            on_, od = number(old)
+            vn, vd = number(v)
+            # cross-multiplied equality of rationals with positive denominators
+            d["V.element[%d]" % j] = Implies(inb, If(iv == j, nn * vd == vn * nd, nn * od == on_ * nd))
+            d["V.inv[%d]" % j] = c.inv(new)
+        return d
